@@ -69,6 +69,26 @@ func checkC02(ci interface{}, st *Stats) error {
 	if perr != nil {
 		return perr
 	}
+	// ... and with transformation and static checking enabled on the context (they run after the
+	// parse; the bound does not depend on them)
+	ctxT, _, _ := NewCtxAt(in, c.PreLen)
+	ctxT.EnableTransformation()
+	ctxT.EnableStaticCheck()
+	func() {
+		defer func() {
+			if r := recover(); r != nil {
+				if be, ok := r.(boundExceeded); ok {
+					perr = fmt.Errorf("parsley.Parse(Sentence(N0)) with transformation and static check enabled: %s", be.msg)
+					return
+				}
+				panic(r)
+			}
+		}()
+		_, _ = parsley.Parse(ctxT, combinator.Sentence(b.NT[0]))
+	}()
+	if perr != nil {
+		return perr
+	}
 	// The same parser graph on a second, shorter input with a new file, reader and context: the
 	// bound belongs to the parse, not to the grammar object.
 	if !long && len(in) >= 2 {
